@@ -79,6 +79,10 @@ def run(repo: Repo, chk: Check) -> None:
     initial_bounds(repo, chk)
     schedule_from_op(repo, chk)
     wrappers(repo, chk)
+    # a schedule is built from the MATRIX form of the access maps: a map that is not linear must be refused, not linearised from its unit responses
+    from . import c19
+
+    c19.transform_linear(repo, chk, rule="C03.linear-only")
 
 
 # --------------------------------------------------------------------------- tile_dim call sites
